@@ -294,7 +294,18 @@ def run(ctx):
             ctx.violation('impl-exception', f"Backmap raised {type(exc).__name__}: {exc}",
                           {'input': 'generated case', 'index': i})
             continue
-        mi = model_input(meta, fudge, angles)
+        try:
+            mi = model_input(meta, fudge, angles)
+        except StopIteration:
+            # a flagged residue was oriented without the optimiser: the model (rotation by the optimiser's angles)
+            # does not cover it; the claims are still judged on the output
+            if 'correspondence:Backmap orients a residue without calling the optimiser' not in ctx.broken:
+                ctx.broken.append('correspondence:Backmap orients a residue without calling the optimiser')
+            for claim, detail in judge(meta, fudge, before, after):
+                ctx.violation('spec', f"C06 {claim} fails on the implementation output: {detail}",
+                              {'claim': claim, 'detail': detail, 'impl_positions': after})
+            ctx.case(('uncovered', i), nontrivial=False)
+            continue
         nb = sum(1 for r in mi['residues'] if r['backmap'] and len(r['atoms']) >= 2)
         ctx.feature('oracle_angles' if oracle else 'scipy_angles')
         ctx.feature(f'residues_{len(mi["residues"])}')
